@@ -53,6 +53,8 @@ func (m Mon) Broken() string {
 }
 
 type Step struct {
+	// Light: a history step of an edge - only the submission is known, and that the model stores it
+	Light bool       `json:"-"`
 	X     Sub        `json:"x"`
 	Out   string     `json:"out"`
 	Mon   Mon        `json:"mon"`
@@ -75,6 +77,8 @@ type Finding struct {
 	Hist   []Step      `json:"hist"`
 	Step   Step        `json:"step"`
 	Obs    Obs         `json:"obs"`
+
+	asPredicted bool
 }
 
 type replayer struct {
@@ -134,13 +138,27 @@ func (rp *replayer) apply(st Step, commit bool, before map[string]string) (*Find
 	if obs.Panic != "" {
 		return mk("panic", "panic-in-SyncBlockHeader", obs.Panic), obs
 	}
+	if st.Light { // judged as an edge of its own elsewhere; here it only has to bring about the source state
+		if !obs.Stored {
+			return mk("drift", "drift:history-step-not-stored", obs.Err), obs
+		}
+		if commit {
+			rp.stored[key] = tdOf(full)
+		}
+		return nil, obs
+	}
 	// ---- monitor, evaluated on what the implementation did --------------------------------------
 	if obs.Stored && !st.Mon.Allowed() {
 		what := st.Mon.Broken()
 		if x.F != "ok" {
 			what = "malformed:" + x.F
 		}
-		return mk("violation", "stored:"+what, "a header was stored that C29 forbids"), obs
+		f := mk("violation", "stored:"+what, "a header was stored that C29 forbids")
+		f.asPredicted = st.Out == "store" && st.Ch == obs.CH
+		if obs.Stored && commit {
+			rp.stored[key] = tdOf(full)
+		}
+		return f, obs
 	}
 	storedNow := map[string]int{}
 	for k, v := range rp.stored {
@@ -270,7 +288,11 @@ func posaReplay(routerName, cfgName string) {
 		g, ok := groups[k]
 		if !ok {
 			g = &group{}
-			vio.Must(json.Unmarshal(raw.H, &g.hist))
+			var xs []Sub
+			vio.Must(json.Unmarshal(raw.H, &xs))
+			for _, x := range xs {
+				g.hist = append(g.hist, Step{Light: true, X: x, Out: "store"})
+			}
 			groups[k] = g
 			order = append(order, k)
 		}
@@ -305,6 +327,9 @@ func posaReplay(routerName, cfgName string) {
 			if f != nil {
 				f.Hist = g.hist[:j]
 				local = append(local, f)
+				if f.Kind == "violation" && f.asPredicted {
+					continue // the implementation-shaped model predicted this (a named deviation): the source state is the intended one
+				}
 				ok = false
 				abandoned = len(g.edges)
 				break
